@@ -47,7 +47,14 @@ type retInfo struct {
 	st    *State
 }
 
+type callRec struct {
+	blk  *ssa.BasicBlock
+	res  []Val
+	args []Val
+}
+
 type Frame struct {
+	calls map[string][]callRec // contract calls made so far, by callee name (spec: lastresult / lastarg)
 	c      *Ctx
 	fn     *ssa.Function
 	id     int
